@@ -89,6 +89,27 @@ PProds == { Pr("addr", Par(<<T("&"), N("L")>>)), Pr("padd", Par(<<N("P"), T("+")
             Pr("addrindex", Par(<<T("&"), T("arr"), T("["), N("R"), T("]")>>)) }
 PpProds == PProds
 
+\* a labelled (or case-labelled) statement as the UNBRACED body of a controlling statement, one flat production
+\* per (controlling statement, kind of labelled statement): whether the labelled statement stays attached to
+\* its label - and with it to the controlling statement - decides what the compiler generates
+Ctls == {"if", "else", "while", "for", "do", "case", "default"}
+Kinds == {"expr", "empty", "block", "if", "while", "do", "for", "switch", "return"}
+Kind(k) == CASE k = "expr" -> <<N("R"), T(";")>> [] k = "empty" -> <<T(";")>> [] k = "block" -> <<T("{"), N("R"), T(";"), T("}")>>
+             [] k = "if" -> <<T("if"), T("("), N("R"), T(")"), N("R"), T(";")>>
+             [] k = "while" -> <<T("while"), T("("), N("R"), T(")"), N("R"), T(";")>>
+             [] k = "do" -> <<T("do"), N("R"), T(";"), T("while"), T("("), N("R"), T(")"), T(";")>>
+             [] k = "for" -> <<T("for"), T("("), T(";"), N("R"), T(";"), T(")"), N("R"), T(";")>>
+             [] k = "switch" -> <<T("switch"), T("("), N("R"), T(")"), T("{"), T("default"), T(":"), N("R"), T(";"), T("}")>>
+             [] k = "return" -> <<T("return"), N("R"), T(";")>>
+Lab(k) == <<U("L"), T(":")>> \o Kind(k)
+Ctl(c, k) == CASE c = "if" -> <<T("if"), T("("), N("R"), T(")")>> \o Lab(k)
+               [] c = "else" -> <<T("if"), T("("), N("R"), T(")"), T(";"), T("else")>> \o Lab(k)
+               [] c = "while" -> <<T("while"), T("("), N("R"), T(")")>> \o Lab(k)
+               [] c = "for" -> <<T("for"), T("("), T(";"), N("R"), T(";"), T(")")>> \o Lab(k)
+               [] c = "do" -> <<T("do")>> \o Lab(k) \o <<T("while"), T("("), N("R"), T(")"), T(";")>>
+               [] c = "case" -> <<T("switch"), T("("), N("R"), T(")"), T("case"), T("1"), T(":")>> \o Kind(k)
+               [] c = "default" -> <<T("switch"), T("("), N("R"), T(")"), T("default"), T(":")>> \o Kind(k)
+
 StmtProds(l) ==
   { Pr("exprstmt", <<N("R"), T(";")>>), Pr("emptystmt", <<T(";")>>),
     Pr("block", <<T("{"), N(IF l THEN "Bl" ELSE "B"), N(IF l THEN "Bl" ELSE "B"), T("}")>>),
@@ -107,6 +128,7 @@ StmtProds(l) ==
                     T("case"), T("3"), T("+"), T("4"), T(":"), T("{"), N(IF l THEN "Bl" ELSE "B"), T("}"), T("}")>>),
     Pr("gotolabel", <<T("{"), T("if"), T("("), N("R"), T(")"), T("goto"), U("L"), T(";"), N("R"), T(";"), U("=L"), T(":"), N(IF l THEN "Sl" ELSE "S"), T("}")>>),
     Pr("return", <<T("return"), N("R"), T(";")>>) }
+  \cup { Pr("lab:" \o c \o ":" \o k, Ctl(c, k)) : c \in Ctls, k \in Kinds }
   \cup (IF l THEN { Pr("break", <<T("break"), T(";")>>), Pr("continue", <<T("continue"), T(";")>>) } ELSE {})
 \* statements that may stand between `if (..)` and `else`: closed forms only
 ClosedProds(l) == { p \in StmtProds(l) : p.n \in {"exprstmt", "emptystmt", "block", "dowhile", "return", "break", "continue", "switch1", "gotolabel"} }
